@@ -75,7 +75,8 @@ struct JSONUtils {
     template <typename>
     struct JSONotation_T;
 
-    template <typename Char_T, typename Stream_T>
+    // Closed_T: the string has to end with an unescaped quote; 0 is returned when it is missing.
+    template <bool Closed_T = false, typename Char_T, typename Stream_T>
     static SizeT UnEscape(const Char_T *content, SizeT length, Stream_T &stream) {
         using JSONotation = JSONotation_T<Char_T>;
 
@@ -192,6 +193,10 @@ struct JSONUtils {
             }
 
             ++offset;
+        }
+
+        if QENTEM_CONST_EXPRESSION (Closed_T) {
+            return 0;
         }
 
         if (stream.IsNotEmpty()) {
